@@ -175,7 +175,10 @@ func (f *Frame) execStmt(s ast.Stmt, st *State) []Outcome {
 		f.defers = append(f.defers, x.Call)
 		return normal(st)
 	case *ast.GoStmt:
-		in.unsupported(x.Pos(), "go statement")
+		// goroutine bodies are not modelled; sound only where the spawned work does not touch
+		// the state the contract talks about (reviewed per function, listed as an assumption)
+		in.note(fmt.Sprintf("go statement at %s dropped (its body is not modelled)", in.W.Fset.Position(x.Pos())))
+		return normal(st)
 	}
 	in.unsupported(s.Pos(), "statement %T", s)
 	return nil
